@@ -194,6 +194,9 @@ struct IdxColors<C> {
     pulled: Rc<Cell<u64>>,
     calls: Rc<Cell<u64>>,
     limit: u64,
+    /// not fused: after the `None` at `end` the iterator yields this many further colours
+    resume: u64,
+    gap_done: bool,
     _c: core::marker::PhantomData<C>,
 }
 impl<C: HColor> Iterator for IdxColors<C> {
@@ -205,7 +208,10 @@ impl<C: HColor> Iterator for IdxColors<C> {
         }
         if let Some(e) = self.end {
             if self.idx >= e {
-                return None;
+                if !self.gap_done || self.idx >= e + self.resume {
+                    self.gap_done = true;
+                    return None;
+                }
             }
         }
         let v = (self.start + self.idx) as u32;
@@ -217,6 +223,7 @@ impl<C: HColor> Iterator for IdxColors<C> {
         // exact for finite streams, as a slice or range iterator would report
         match self.end {
             Some(e) => {
+                let e = if self.gap_done { e + self.resume } else { e };
                 let r = e.saturating_sub(self.idx) as usize;
                 (r, Some(r))
             }
@@ -227,8 +234,9 @@ impl<C: HColor> Iterator for IdxColors<C> {
         // O(1) skip, as a slice or range iterator would provide
         let n = n as u64;
         match self.end {
-            Some(e) if self.idx + n >= e => {
+            Some(e) if !self.gap_done && self.idx + n >= e => {
                 self.idx = e;
+                self.gap_done = true;
                 self.pulled.set(self.idx);
                 self.calls.set(self.calls.get() + 1);
                 None
@@ -239,6 +247,41 @@ impl<C: HColor> Iterator for IdxColors<C> {
             }
         }
     }
+}
+
+/// A legal iterator that is not fused: it yields `first`, then `None` once, then `second`, then `None` again.
+/// A stream given to a call ends at its first `None`; what the iterator would yield afterwards is not part of it.
+struct Resuming<I, J> {
+    first: I,
+    second: J,
+    ended: bool,
+    /// number of items handed out after the first `None`
+    resumed: Rc<Cell<u64>>,
+}
+impl<T, I: Iterator<Item = T>, J: Iterator<Item = T>> Iterator for Resuming<I, J> {
+    type Item = T;
+    fn next(&mut self) -> Option<T> {
+        if !self.ended {
+            match self.first.next() {
+                Some(v) => return Some(v),
+                None => {
+                    self.ended = true;
+                    return None;
+                }
+            }
+        }
+        let v = self.second.next();
+        if v.is_some() {
+            self.resumed.set(self.resumed.get() + 1);
+        }
+        v
+    }
+}
+fn resuming<T, I: Iterator<Item = T>, J: Iterator<Item = T>>(first: I, second: J, resumed: &Rc<Cell<u64>>) -> Resuming<I, J> {
+    Resuming { first, second, ended: false, resumed: resumed.clone() }
+}
+fn opt_arr<'a>(a: &'a Value, k: &str) -> &'a [Value] {
+    a.get(k).and_then(|v| v.as_array()).map(|v| v.as_slice()).unwrap_or(&[])
 }
 
 // ------------------------------------------------------------------ argument helpers
@@ -309,24 +352,38 @@ where
             "set_pixels" => {
                 let w = garr(a, "win");
                 let cols = garr(a, "colors");
-                self.set_pixels(
-                    w[0] as u16,
-                    w[1] as u16,
-                    w[2] as u16,
-                    w[3] as u16,
-                    cols.into_iter().map(|c| M::ColorFormat::from_raw(c as u32)),
-                )
+                let more: Vec<i64> = opt_arr(a, "resume").iter().map(|v| v.as_i64().unwrap()).collect();
+                let resumed = Rc::new(Cell::new(0));
+                let first = cols.into_iter().map(|c| M::ColorFormat::from_raw(c as u32));
+                let r = if a.get("resume").is_some() {
+                    let second = more.into_iter().map(|c| M::ColorFormat::from_raw(c as u32));
+                    self.set_pixels(w[0] as u16, w[1] as u16, w[2] as u16, w[3] as u16, resuming(first, second, &resumed))
+                } else {
+                    self.set_pixels(w[0] as u16, w[1] as u16, w[2] as u16, w[3] as u16, first)
+                };
+                if a.get("resume").is_some() {
+                    x.insert("resumed".into(), json!(resumed.get()));
+                }
+                r
             }
             "draw_iter" => {
                 let px = a.get("px").and_then(|v| v.as_array()).expect("HARNESS: px");
-                let it = px.iter().map(|p| {
+                let mk = |p: &Value| {
                     let p = p.as_array().unwrap();
                     Pixel(
                         Point::new(p[0].as_i64().unwrap() as i32, p[1].as_i64().unwrap() as i32),
                         M::ColorFormat::from_raw(p[2].as_i64().unwrap() as u32),
                     )
-                });
-                self.draw_iter(it)
+                };
+                let it = px.iter().map(mk);
+                if a.get("resume").is_some() {
+                    let resumed = Rc::new(Cell::new(0));
+                    let r = self.draw_iter(resuming(it, opt_arr(a, "resume").iter().map(mk), &resumed));
+                    x.insert("resumed".into(), json!(resumed.get()));
+                    r
+                } else {
+                    self.draw_iter(it)
+                }
             }
             "fill_solid" => self.fill_solid(&rect_of(a), M::ColorFormat::from_raw(gi(a, "c") as u32)),
             "fill_contiguous" => {
@@ -341,6 +398,8 @@ where
                     pulled: pulled.clone(),
                     calls: calls.clone(),
                     limit: budget * 8,
+                    resume: c.get("resume").and_then(|v| v.as_u64()).unwrap_or(0),
+                    gap_done: false,
                     _c: core::marker::PhantomData,
                 };
                 let r = self.fill_contiguous(&rect_of(a), it);
@@ -418,12 +477,30 @@ where
                     .iter()
                     .map(|p| p.as_array().unwrap().iter().map(|v| v.as_i64().unwrap()).collect())
                     .collect();
-                match n {
-                    1 => self.0.send_pixels(px.iter().map(|p| words::<DI::Word, 1>(p))),
-                    2 => self.0.send_pixels(px.iter().map(|p| words::<DI::Word, 2>(p))),
-                    3 => self.0.send_pixels(px.iter().map(|p| words::<DI::Word, 3>(p))),
-                    _ => panic!("HARNESS: n"),
+                let more: Vec<Vec<i64>> = opt_arr(a, "resume")
+                    .iter()
+                    .map(|p| p.as_array().unwrap().iter().map(|v| v.as_i64().unwrap()).collect())
+                    .collect();
+                let resumed = Rc::new(Cell::new(0));
+                let r = if a.get("resume").is_some() {
+                    match n {
+                        1 => self.0.send_pixels(resuming(px.iter().map(|p| words::<DI::Word, 1>(p)), more.iter().map(|p| words::<DI::Word, 1>(p)), &resumed)),
+                        2 => self.0.send_pixels(resuming(px.iter().map(|p| words::<DI::Word, 2>(p)), more.iter().map(|p| words::<DI::Word, 2>(p)), &resumed)),
+                        3 => self.0.send_pixels(resuming(px.iter().map(|p| words::<DI::Word, 3>(p)), more.iter().map(|p| words::<DI::Word, 3>(p)), &resumed)),
+                        _ => panic!("HARNESS: n"),
+                    }
+                } else {
+                    match n {
+                        1 => self.0.send_pixels(px.iter().map(|p| words::<DI::Word, 1>(p))),
+                        2 => self.0.send_pixels(px.iter().map(|p| words::<DI::Word, 2>(p))),
+                        3 => self.0.send_pixels(px.iter().map(|p| words::<DI::Word, 3>(p))),
+                        _ => panic!("HARNESS: n"),
+                    }
+                };
+                if a.get("resume").is_some() {
+                    _x.insert("resumed".into(), json!(resumed.get()));
                 }
+                r
             }
             "xport.send_repeated_pixel" => {
                 let n = gi(a, "n");
